@@ -14,6 +14,7 @@ limitations under the License.
 package ttlcache
 
 import (
+	"sync"
 	"sync/atomic"
 	"time"
 
@@ -23,7 +24,11 @@ import (
 
 // Cache is an efficient cache with a TTL.
 type Cache[V any] struct {
-	m         *haxmap.Map[string, cacheEntry[V]]
+	m *haxmap.Map[string, cacheEntry[V]]
+	// Insertions (Set) hold this lock shared, removals (Delete, Cleanup, Reset) hold it exclusively.
+	// An entry inserted in haxmap while a neighboring entry is being removed can end up reachable by Get but not by
+	// ForEach: Reset and Cleanup would never remove it.
+	lock      sync.RWMutex
 	clock     kclock.WithTicker
 	stopped   atomic.Bool
 	runningCh chan struct{}
@@ -96,15 +101,19 @@ func (c *Cache[V]) Set(key string, val V, ttl int64) {
 	}
 
 	exp := c.clock.Now().Add(time.Duration(ttl) * time.Second)
+	c.lock.RLock()
 	c.m.Set(key, cacheEntry[V]{
 		val: val,
 		exp: exp,
 	})
+	c.lock.RUnlock()
 }
 
 // Delete an item from the cache
 func (c *Cache[V]) Delete(key string) {
+	c.lock.Lock()
 	c.m.Del(key)
+	c.lock.Unlock()
 }
 
 // Cleanup removes all expired entries from the cache.
@@ -123,7 +132,9 @@ func (c *Cache[V]) Cleanup() {
 		return true
 	})
 
+	c.lock.Lock()
 	c.m.Del(keys...)
+	c.lock.Unlock()
 }
 
 // Reset removes all entries from the cache.
@@ -138,7 +149,9 @@ func (c *Cache[V]) Reset() {
 		return true
 	})
 
+	c.lock.Lock()
 	c.m.Del(keys...)
+	c.lock.Unlock()
 }
 
 func (c *Cache[V]) startBackgroundCleanup(d time.Duration) {
